@@ -16,7 +16,7 @@ PROP = {
                   "source's order (C17_kmerge_sorted/_permutation/_source_order), the executable merge is such a run (C17_kmerge_model_is_run); the stacking shortcut "
                   "is_disjunct_and_sorted_on_sort_property (min/max windows, segment_has_live_nulls, reader pre-sort) is sound (C17_stack_sound) and every merge of sorted sources - either "
                   "branch, numeric keys or merged ordinals - is sorted and holds exactly the live documents (C17_segment_sorted_merge, C17_merge_keeps_live_documents, C17_merge_source_order), "
-                  "all outside the known class F171 (Multivalued sort column with a live value-less document: C17_stack_multivalued_refuted). i64/date/f64 keys: the u64 images preserve the "
+                  "all outside the class F171 (Multivalued sort column with a live value-less document declared null-free by the pre-fix test `!= Cardinality::Optional`: C17_stack_multivalued_refuted); the shape of that test is re-read from merger.rs (pin SORT_LIVE_NULLS_SCANS_MULTIVALUED) and the model follows it; for the shape pinned now (`== Cardinality::Full`) the class is empty and the merge theorem holds for all sorted sources (C17_segment_sorted_merge_all). i64/date/f64 keys: the u64 images preserve the "
                   "order of the values (C17_i64_key_order, C17_f64_key_order, pinned sign bit), so sortedness of keys is sortedness of values (C17_numeric_spec_is_key_order). "
                   "Str/Bytes keys are dictionary ordinals, modelled as the rank of the term among the terms of the segment / of all merged segments: ranks order terms exactly like "
                   "their bytes (C17_ordinal_key_order, C17_bytes_spec_is_key_order). std's stable sort_by is used through its contract only: any stable sorted permutation equals the "
@@ -34,7 +34,7 @@ PROP = {
     "technique": "Coq proof (list induction: stable sort, permutations, minimal-head k-way merge relation, min/max windows) + correspondence cases evaluated by vm_compute",
     "rule": "a history is non-trivial when its sort values contain duplicates AND at least one document has no value AND at least one delete_term hits a tag already used in the same "
             "(reordered) transaction; histories cover u64/i64/f64/date/str/bytes x Asc/Desc (+ unsorted control), extremes (0, u64::MAX, i64::MIN/MAX, +-inf, subnormals, empty string/bytes), "
-            "1-5 commits, merges of disjoint / overlapping / identical value windows with and without deleted documents, single- and multi-valued documents; plus a boundary batch per key type x direction: fresh segments (and a merge of two) made only of both ends of the type with neighbours ({0,1,2,MAX-2,MAX-1,MAX} u64; {MIN,MIN+1,MIN+2,-1,0,1,MAX-2,MAX-1,MAX} i64 and nanosecond dates; +-inf, +-f64::MAX and neighbours, subnormals; shortest/greatest strings and byte strings) in ascending, descending, both pairwise and shuffled insertion orders, tied against the model mapping whose key is Option<u64> (all values distinguished); distinct by hash of the Gallina case term",
+            "1-5 commits, merges of disjoint / overlapping / identical value windows with and without deleted documents, single- and multi-valued documents; plus a boundary batch per key type x direction: fresh segments (and a merge of two) made only of both ends of the type with neighbours ({0,1,2,MAX-2,MAX-1,MAX} u64; {MIN,MIN+1,MIN+2,-1,0,1,MAX-2,MAX-1,MAX} i64 and nanosecond dates; +-inf, +-f64::MAX and neighbours, subnormals; shortest/greatest strings and byte strings) in ascending, descending, both pairwise and shuffled insertion orders, tied against the model mapping whose key is Option<u64> (all values distinguished); plus a directed batch per key type x direction for the stacking decision: 2-4 segments with disjoint or touching value windows committed in random order, one of them (lowest / middle / highest window) holding 1-3 value-less documents (alive, deleted or mixed) and fewer / as many / more deleted documents with values (deleted inside the transaction or by the next one), optional deletes in the other segments, optional multi-valued document, then a merge of all segments; distinct by hash of the Gallina case term",
     "trusted_base": COMMON_TB + ["std::slice::sort_by (stable) is represented by a stable insertion sort, itertools::kmerge_by by the relation kmerge_run (any minimal-head merge); "
                                  "both tied by differential runs only",
                                  "dictionary ordinals of Str/Bytes columns are modelled as ranks in byte order (C15's domain)"],
